@@ -61,7 +61,13 @@ func (i *interpreter) lockWatch(base, mu value) {
 	if ifc, ok := base.(iface); ok {
 		m.baseType = ifc.t
 	}
+	if ifc, ok := mu.(iface); ok {
+		mu = ifc.v
+	}
 	m.watchedMu, _ = mu.(*value)
+	if m.watchedMu == nil {
+		panic(engineError{"vxLockWatch: second argument is not a *sync.RWMutex"})
+	}
 	m.guardType = "ConcurrentFactStore"
 }
 
